@@ -41,6 +41,16 @@ CLAIMED = {
          "TLC checks termination (liveness under weak fairness on the unconstrained Spec) and genuineness of every returned crossing for all "
          "recordings over {-2..2} up to the length bound x on-sample targets x steps; each run is replayed on the real findNearestZeroCrossing "
          "under a hang guard; tgBoundariesToZeroCrossings and audioSplice are judged on random textgrids."),
+ "C19": ("spec/MC_Klatt.tla (KlattMachine) + spec/KlattProp.tla + spec/Trace_Klatt.tla", "5 (C19)",
+         "TLC explores every save/open/modifySubtiers/modifyValues behaviour of the KlattMachine (values as provenance terms) to the depth bound; "
+         "every behaviour is replayed on synthetic KlattGrids (1-5 formants, 0-3 points) and on the reference KlattGrid with concrete functions; "
+         "TLC compares every leaf tier's span, times and values as ranks of bit patterns; point objects are saved/opened and their long and short "
+         "encodings (Praat layout, compact, with/without final newline) opened and compared."),
+ "C20": ("spec/MC_Series.tla (transcription of _stepFilter) + spec/SeriesProp.tla", "5 (C20)",
+         "TLC checks the window/offset/edge bookkeeping of _stepFilter against the median definition for every small integer series x window 0..8 x "
+         "padding and replays each case through the real medianFilter; z-normalisation, rms, pitch measures, jump detector, listing parser and row "
+         "filters are judged by TLC on exact integer/rational restatements of their definitions with explicit rounding tolerances. "
+         "This is the property where TLA+ contributes least (pure numeric functions)."),
  "C05": ("spec/MC_Tier.tla + spec/TierProp.tla (WFClauses) + spec/Trace_Tier.tla", "5 (C05)",
          "TLC checks RecvWF/NoFail on the tier state machine for all 16 operations from every well-formed start state; every "
          "transition, random millisecond-grid vectors and random live histories (<= 12 steps, exact dyadic arithmetic) are executed on "
